@@ -723,7 +723,7 @@ class LabelIndexer:
     def sym_getitem(self, it, key):
         t = self.table
         col = self.col
-        if col is None and isinstance(key, LabelList) and key.table is t:
+        if col is None and isinstance(key, (LabelList, IndexVal)) and key.table is t:
             return t        # .loc[all labels]: all rows in table order
         if col is None:
             if not isinstance(key, tuple) or len(key) != 2:
